@@ -97,7 +97,7 @@ func VerifUpdateResponse(fs []qpack.HeaderField, tailErr bool, limit int) (*http
 func VerifEncodeRequest(req *http.Request, gzip bool) ([]qpack.HeaderField, error) {
 	w := newRequestWriter()
 	buf := &bytes.Buffer{}
-	if err := w.writeHeaders(buf, req, gzip, quic.StreamID(0), nil); err != nil {
+	if err := w.WriteRequestHeader(buf, req, gzip, quic.StreamID(0), nil); err != nil { // the method the client calls
 		return nil, err
 	}
 	return verifDecodeHeadersFrame(buf)
